@@ -361,7 +361,8 @@ fn gen_plan18(rng: &mut Rng, cls: u64, ncalls: usize) -> FaultPlan {
     if cls == 0 {
         return plan;
     }
-    let rate = rng.range(3, 40);
+    let rate = if rng.chance(1, 10) { rng.range(80, 97) } else { rng.range(3, 40) };
+    let ncalls = if rate >= 80 { ncalls * 12 } else { ncalls };
     for c in 0..ncalls {
         if rng.below(100) < rate {
             plan.at.push((c, if rng.chance(1, 3) { Fault::Interrupted } else { Fault::Short(rng.usize_range(1, 9)) }));
